@@ -6,7 +6,7 @@ parts=json.load(open('/verif/scripts/design_parts.json'))
 descs=json.load(open('/verif/scripts/seed_descriptions.json'))
 frozen=json.load(open('/verif/seeded/round2_frozen.json')) if os.path.exists('/verif/seeded/round2_frozen.json') else {}
 def table(pattern):
-    r2=any(x in pattern for x in ('[cd]','[ef]','[gh]','[ij]','[kl]','[mn]','[op]'))
+    r2=any(x in pattern for x in ('[cd]','[ef]','[gh]','[ij]','[kl]','[mn]','[op]','[qr]'))
     t="| seed | change (needs a specific interleaving / fault / history / input to manifest) | "+("frozen checker (before round 2 was read) | " if r2 else "")+"caught by (properties) | rules that fire |\n|---|---|---|---|"+("---|" if r2 else "")+"\n"
     n=d=0
     for f in sorted(glob.glob(pattern)):
@@ -40,6 +40,9 @@ t7,n7,d7=table('/verif/seeded/*/[mn]/meta.json'); f7o=sum(1 for v in frozen.valu
 frozen=json.load(open('/verif/seeded/round8_frozen.json')) if os.path.exists('/verif/seeded/round8_frozen.json') else {}
 frozen={k.split('/')[0]+'/'+{'a':'o','b':'p'}[k.split('/')[1]]:v for k,v in frozen.items()}
 t8,n8,d8=table('/verif/seeded/*/[op]/meta.json'); f8o=sum(1 for v in frozen.values() if v.get('own')); f8a=sum(1 for v in frozen.values() if v.get('properties')); f8n=len(frozen)
+frozen=json.load(open('/verif/seeded/round9_frozen.json')) if os.path.exists('/verif/seeded/round9_frozen.json') else {}
+frozen={k.split('/')[0]+'/'+{'a':'q','b':'r'}[k.split('/')[1]]:v for k,v in frozen.items()}
+t9,n9,d9=table('/verif/seeded/*/[qr]/meta.json'); f9o=sum(1 for v in frozen.values() if v.get('own')); f9a=sum(1 for v in frozen.values() if v.get('properties')); f9n=len(frozen)
 frozen=json.load(open('/verif/seeded/round2_frozen.json')) if os.path.exists('/verif/seeded/round2_frozen.json') else {}
 head=open('/verif/scripts/design_head.md').read(); tail=open('/verif/scripts/design_tail.md').read()
 r2=open('/verif/scripts/design_round2.md').read() if os.path.exists('/verif/scripts/design_round2.md') else ''
@@ -57,7 +60,9 @@ r7=open('/verif/scripts/design_round7.md').read() if os.path.exists('/verif/scri
 r7=r7.replace('@@SEEDTABLE7@@',t7).replace('@@N7@@',str(n7)).replace('@@D7@@',str(d7)).replace('@@F7O@@',str(f7o)).replace('@@F7A@@',str(f7a)).replace('@@F7N@@',str(f7n))
 r8=open('/verif/scripts/design_round8.md').read() if os.path.exists('/verif/scripts/design_round8.md') else ''
 r8=r8.replace('@@SEEDTABLE8@@',t8).replace('@@N8@@',str(n8)).replace('@@D8@@',str(d8)).replace('@@F8O@@',str(f8o)).replace('@@F8A@@',str(f8a)).replace('@@F8N@@',str(f8n))
-r2=r2+r3+r4+r5+r6+r7+r8
+r9=open('/verif/scripts/design_round9.md').read() if os.path.exists('/verif/scripts/design_round9.md') else ''
+r9=r9.replace('@@SEEDTABLE9@@',t9).replace('@@N9@@',str(n9)).replace('@@D9@@',str(d9)).replace('@@F9O@@',str(f9o)).replace('@@F9A@@',str(f9a)).replace('@@F9N@@',str(f9n))
+r2=r2+r3+r4+r5+r6+r7+r8+r9
 rt=''
 for f in sorted(glob.glob('/verif/evidence/C*.json')):
     e=json.load(open(f)); c=e['coverage']
